@@ -38,7 +38,11 @@ type ProviderCache struct {
 	sources []ProviderSource
 	ttl     time.Duration
 
-	seq       uint
+	seq uint
+	// pubSeq is the seq of the last refresh whose updates were published to
+	// readers. A refresh that is canceled part-way advances seq and stamps the
+	// records it fetched, but publishes nothing.
+	pubSeq    uint
 	write     map[peer.ID]*cacheInfo
 	writeLock chan struct{}
 
@@ -343,8 +347,9 @@ func (pc *ProviderCache) Refresh(ctx context.Context) error {
 				// Store nil in updates to override anything in main map.
 				updates[pid] = nil
 			}
-		} else if cinfo.updateSeq == seq {
-			// Address updated, update read-only data.
+		} else if cinfo.updateSeq > pc.pubSeq {
+			// Updated since readers were last given new data, in this refresh
+			// or in an earlier one that was canceled before it published.
 			updates[pid] = apiToCacheInfo(cinfo.provider)
 		}
 	}
@@ -353,6 +358,7 @@ func (pc *ProviderCache) Refresh(ctx context.Context) error {
 	// new main map yet.
 	if !needMerge(len(updates), len(read.m)) {
 		pc.read.Store(&readOnly{m: read.m, u: updates})
+		pc.pubSeq = seq
 		return nil
 	}
 
@@ -368,6 +374,7 @@ func (pc *ProviderCache) Refresh(ctx context.Context) error {
 
 	// Replace old readOnly map with new.
 	pc.read.Store(&readOnly{m: m})
+	pc.pubSeq = seq
 	return nil
 }
 
@@ -426,7 +433,7 @@ func (pc *ProviderCache) fetchMissing(ctx context.Context, pid peer.ID) (*readPr
 
 	seq := pc.seq
 
-	_, ok := pc.write[pid]
+	prev, ok := pc.write[pid]
 	if ok {
 		// Stored by previous request.
 		read := pc.loadReadOnly()
@@ -446,6 +453,12 @@ func (pc *ProviderCache) fetchMissing(ctx context.Context, pid peer.ID) (*readPr
 	cinfo := &cacheInfo{
 		seq:       seq,
 		updateSeq: seq,
+	}
+	if prev != nil {
+		// Fetched by a refresh that was canceled before it published. Keep it
+		// unless a source now has something newer.
+		cinfo.provider = prev.provider
+		cinfo.lastUpdate = prev.lastUpdate
 	}
 
 	for _, src := range pc.sources {
